@@ -59,7 +59,7 @@ def run_structure(ident, spec, res, checks=('fields', 'total'), spare=2):
                 'why': text, 'dedup': f"{ident}:{name.split('_')[0]}:{text[:40] if model is None else ''}"}
         if model is None:
             if eng.check3() == 'sat':
-                model = eng.solver.model()
+                model = eng.model()
         if model is not None:
             case['payload'] = d.payload_from_model(model).hex()
             res['cex'].append(case)
@@ -95,7 +95,7 @@ def run_structure(ident, spec, res, checks=('fields', 'total'), spare=2):
             claims = msgdrv.field_claims(m, lay, d.P, d.nb)
             msgdrv.discharge(eng, claims, res, cex)
         if ok_paths == 1 and len(res['witnesses']) < 3 and eng.check3() == 'sat':
-            res['witnesses'].append({'kind': 'construct', 'payload': d.payload_from_model(eng.solver.model()).hex(),
+            res['witnesses'].append({'kind': 'construct', 'payload': d.payload_from_model(eng.model()).hex(),
                                      'labelmsm': label, 'checks': ['fields', 'total', 'decodable']})
     if ok_paths == 0:
         res.count('structures_without_success_path')
